@@ -353,11 +353,38 @@ def _truthiness_atoms(test):
         yield test
 
 
-def r6_no_truthiness_of_default(ctx):
+SELFTEST_TRUTHINESS = """
+def set_default_bad(check_obj, schema):
+    default = getattr(schema, "default", None)
+    if default:
+        return check_obj.fill(default)
+    return check_obj
+
+def set_default_ok(check_obj, schema):
+    if schema.default is None:
+        return check_obj
+    return check_obj.fill(schema.default)
+"""
+
+
+def r6_no_truthiness_of_default(ctx, ix=None):
     """No backend function of either flavour tests a declared default for truthiness (`if default:` / `x if default
     else y` / `default and ...`, directly or through a local): the component-level set_default functions are reached by
     the containers, and 0 / False / '' are legal defaults that the other backend fills."""
-    ix = ctx.ix
+    if ix is None:
+        from ..index import Index
+
+        class _S:
+            def __init__(self):
+                self.obs, self.stats = [], {}
+
+            def ob(self, rule, f, construct, ok, detail, loc=None):
+                self.obs.append((f.name, ok))
+        sink = _S()
+        r6_no_truthiness_of_default(sink, Index.from_sources({"pandera/backends/pandas/_selftest.py": SELFTEST_TRUTHINESS}))
+        if sink.obs != [("set_default_bad", False)]:
+            raise AnalysisError(f"truthiness-of-default self-test failed: {sink.obs}")
+    ix = ix or ctx.ix
     n = 0
     for m in ix.modules.values():
         if not m.path.startswith(("pandera/backends/pandas/", "pandera/backends/polars/")):
